@@ -164,6 +164,12 @@ class Cluster:
 
     def attach(self, loop, net):
         self.loop, self.net = loop, net
+        # everything the cluster schedules runs in its own context (owner "cluster"), not in the
+        # context of the client whose write() delivered the request
+        import contextvars
+        from .simloop import OWNER
+        self.ctx = contextvars.Context()
+        self.ctx.run(OWNER.set, "cluster")
         if self.reg is None:
             self.reg = _registry()
             mx = {}
@@ -235,7 +241,7 @@ class Cluster:
         now = self.loop.time()
         at = max(now + plan.delay_in, getattr(tr, "last_arrival", 0.0) + 1e-6)
         tr.last_arrival = at
-        self.loop.call_at(at, self._arrive, ctx)
+        self.loop.call_at(at, self._arrive, ctx, context=self.ctx)
 
     def _arrive(self, ctx):
         """A request reaches the broker.  Kafka handles the requests of one connection
@@ -265,7 +271,7 @@ class Cluster:
         if not tr.server_open or not self.nodes[ctx.node].up:
             return
         if plan.fault == "drop_before":
-            self.log.emit("Fault", kind="drop_before", api=ctx.api, node=ctx.node, req=ctx.no)
+            self.log.emit("Fault", kind="drop_before", api=ctx.api, node=ctx.node, req=ctx.no, client=ctx.client_id)
             self.conns.discard(tr)
             tr.server_close(ConnectionResetError("dropped"))
             return
@@ -274,7 +280,7 @@ class Cluster:
             raise RuntimeError(f"simcluster: no handler for {ctx.api}")
         if plan.fault == "error":
             resp = self._error_response(ctx, plan.code)
-            self.log.emit("Fault", kind="error", code=plan.code, api=ctx.api, node=ctx.node, req=ctx.no)
+            self.log.emit("Fault", kind="error", code=plan.code, api=ctx.api, node=ctx.node, req=ctx.no, client=ctx.client_id)
         else:
             resp = h(ctx)
         if resp is DEFER:
@@ -287,12 +293,12 @@ class Cluster:
             self._next(tr)
             return
         if plan.fault == "drop_after":
-            self.log.emit("Fault", kind="drop_after", api=ctx.api, node=ctx.node, req=ctx.no)
+            self.log.emit("Fault", kind="drop_after", api=ctx.api, node=ctx.node, req=ctx.no, client=ctx.client_id)
             self.conns.discard(tr)
             self.loop.call_later(plan.delay_out, tr.server_close, ConnectionResetError("dropped"))
             return
         if plan.fault == "lose_reply":
-            self.log.emit("Fault", kind="lose_reply", api=ctx.api, node=ctx.node, req=ctx.no)
+            self.log.emit("Fault", kind="lose_reply", api=ctx.api, node=ctx.node, req=ctx.no, client=ctx.client_id)
             self._next(tr)
             return
         from aiokafka.protocol.types import Int32, TaggedFields
@@ -653,7 +659,9 @@ def _h_Fetch(self, ctx):
             aborted = []
             if iso == 1 and chosen:
                 upper = chosen[-1]["last"]
-                aborted = [(pid, first) for (pid, first, marker) in pl.aborted if marker >= off and first <= upper]
+                # transaction-index order = order in which the abort markers were written
+                aborted = [(pid, first) for (pid, first, marker) in sorted(pl.aborted, key=lambda a: a[2])
+                           if marker >= off and first <= upper]
             if chosen:
                 any_data = True
             self.log.emit("FetchReply", node=ctx.node, tp=tpn, off=off, code=0, iso=iso, req=ctx.no,
